@@ -654,8 +654,20 @@ func runExecution(spec *graphSpec, strat strategy, work string) (res execResult)
 		if len(x.parked) > x.maxInFlight {
 			x.maxInFlight = len(x.parked)
 		}
-		if x.returned || len(x.parked) == 0 {
+		if x.returned {
 			break
+		}
+		if len(x.parked) == 0 {
+			// nothing is in flight: the scheduler must either return or start something (stages of the
+			// don't-care region are not predicted by the model and may start late)
+			deadline := time.Now().Add(quiesceWatchdog)
+			for !x.returned && len(x.parked) == 0 && time.Now().Before(deadline) {
+				x.cond.Wait()
+			}
+			if x.returned || len(x.parked) == 0 {
+				break // returned, or stuck: the wait for `done` below reports it
+			}
+			continue
 		}
 		names := keys(x.parked)
 		// ---- cancellation injected at this explorer state?
@@ -858,8 +870,12 @@ func runExecution(spec *graphSpec, strat strategy, work string) (res execResult)
 		if wantErr != res.errFlag {
 			x.violate("C02", "error-flag-differs", fmt.Sprintf("Schedule returned error=%v, the statement requires error=%v (statuses %s)", res.errFlag, wantErr, res.statusVec))
 		}
-	} else if len(x.afterCancel) > 0 {
-		x.violate("C03", "stage-started-after-cancel-returned", fmt.Sprintf("stages %v entered the runner after Cancel had returned", x.afterCancel))
+	}
+	// A stage handed to the runner after Cancel returned is not a violation by itself: the scheduling pass that
+	// was under way may still launch it, and a cancelled runner refuses it without starting a command (the gate
+	// does the same). Whether a *command* starts after cancellation is decided with the real runner in C12.
+	if cancelledRun {
+		out.Count("runs_refused_after_cancel", int64(len(x.afterCancel)))
 	}
 	res.viols = x.viols
 	return
